@@ -52,6 +52,8 @@ type glFunc struct {
 	// `if err := <call>; err != nil { … }`: Go text of the init statement → Lean expression of type (state × Bool)
 	// (new state, "the call returned an error"); inside the statement `err != nil` is that Bool
 	effectInits map[string]string
+	// `if a, b := <call>; <cond> { … }` where the call only produces values: Go text of the init → (Lean pattern, Lean expr)
+	bindInits map[string][2]string
 	// `if <init>; <cond> { … }` statements without effect on the model (logging, deadlines), keyed by the init text
 	noopIfInits map[string]bool
 	dropped     []string
@@ -268,6 +270,10 @@ func (g *glFunc) block(stmts []ast.Stmt, cont string) string {
 				}
 			}
 			if x.Tok == token.ASSIGN {
+				if id, ok := x.Lhs[0].(*ast.Ident); ok && id.Name == g.state {
+					// the threaded variable itself is a local of the Go function
+					return "let " + g.state + " := " + g.expr(x.Rhs[0]) + "\n" + g.block(rest, cont)
+				}
 				if se, ok := x.Lhs[0].(*ast.SelectorExpr); ok {
 					if id, ok := se.X.(*ast.Ident); ok && id.Name == g.recv {
 						if lf, ok := g.fields[se.Sel.Name]; ok {
@@ -284,6 +290,11 @@ func (g *glFunc) block(stmts []ast.Stmt, cont string) string {
 			if g.noopIfInits[it] {
 				g.dropped = append(g.dropped, "if "+it+"; "+types.ExprString(x.Cond)+" {…}")
 				return g.block(rest, cont)
+			}
+			if bi, ok := g.bindInits[it]; ok {
+				cp := *x
+				cp.Init = nil
+				return "let " + bi[0] + " := " + bi[1] + "\n" + g.block(append([]ast.Stmt{&cp}, rest...), cont)
 			}
 			if l, ok := g.effectInits[it]; ok && types.ExprString(x.Cond) == "err != nil" {
 				cp := *x
